@@ -426,8 +426,18 @@ func failingPkgs(out string) map[string]string {
 			m[pkg] = strings.TrimSpace(out[loc[0]:loc[1]])
 		}
 	}
+	// an import that resolves to nothing is reported against the importing file only:
+	//   a0010/app/wire_gen.go:10:2: package libb is not in std (...)
+	for _, sm := range fileLoadErrRe.FindAllStringSubmatch(out, -1) {
+		pkg := ModulePath + "/" + sm[1]
+		if _, ok := m[pkg]; !ok {
+			m[pkg] = strings.TrimSpace(sm[0])
+		}
+	}
 	return m
 }
+
+var fileLoadErrRe = regexp.MustCompile(`(?m)^([^\s:]+)/[^/\s:]+\.go:\d+:\d+: (?:package \S+ is not in std|no required module provides package|cannot find package|cannot find module providing package)[^\n]*$`)
 
 var pkgLoadErrRe = regexp.MustCompile(`(?m)^package (\S+)\n((?:\t[^\n]*\n?)+)`)
 
@@ -493,51 +503,70 @@ func (b *Batch) BuildAndRun() {
 			return
 		}
 	}
-	var mainSrc strings.Builder
-	mainSrc.WriteString("package main\n\nimport (\n\ttr \"" + ModulePath + "/tr\"\n")
-	var calls []string
-	n := 0
-	for _, p := range b.Progs {
-		if !b.Driver[p.ID] {
-			continue
-		}
-		ip := p.ImportPath(0)
-		if _, bad := b.BuildBad[ip]; bad {
-			continue
-		}
-		if _, err := os.Stat(filepath.Join(b.Root, p.ID, p.Pkgs[0].Dir, "wire_gen.go")); err != nil {
-			continue
-		}
-		// a dependency package that failed to build also excludes the program
-		depBad := false
-		for i := range p.Pkgs {
-			if _, bad := b.BuildBad[p.ImportPath(i)]; bad {
-				depBad = true
-			}
-		}
-		if depBad {
-			continue
-		}
-		n++
-		fmt.Fprintf(&mainSrc, "\tq%d %q\n", n, ip)
-		calls = append(calls, fmt.Sprintf("q%d.Scenarios", n))
-	}
-	if n == 0 {
-		return
-	}
-	mainSrc.WriteString(")\n\nfunc main() {\n\ttr.Main(\n")
-	for _, c := range calls {
-		mainSrc.WriteString("\t\t" + c + ",\n")
-	}
-	mainSrc.WriteString("\t)\n}\n")
-	drvDir := filepath.Join(b.Root, "cmd", "drv")
-	os.MkdirAll(drvDir, 0o755)
-	os.WriteFile(filepath.Join(drvDir, "main.go"), []byte(mainSrc.String()), 0o644)
 	bin := filepath.Join(b.Root, "drv.bin")
-	res = b.E.Run(b.Root, b.E.GoEnv(), 600*time.Second, "go", "build", "-o", bin, "./cmd/drv")
-	if res.Exit != 0 {
-		b.TraceErr = "driver link failed: " + res.Stderr
-		return
+	for attempt := 0; ; attempt++ {
+		var mainSrc strings.Builder
+		mainSrc.WriteString("package main\n\nimport (\n\ttr \"" + ModulePath + "/tr\"\n")
+		var calls []string
+		n := 0
+		for _, p := range b.Progs {
+			if !b.Driver[p.ID] {
+				continue
+			}
+			ip := p.ImportPath(0)
+			if _, bad := b.BuildBad[ip]; bad {
+				continue
+			}
+			if _, err := os.Stat(filepath.Join(b.Root, p.ID, p.Pkgs[0].Dir, "wire_gen.go")); err != nil {
+				continue
+			}
+			// a dependency package that failed to build also excludes the program
+			depBad := false
+			for i := range p.Pkgs {
+				if _, bad := b.BuildBad[p.ImportPath(i)]; bad {
+					depBad = true
+				}
+			}
+			if depBad {
+				continue
+			}
+			n++
+			fmt.Fprintf(&mainSrc, "\tq%d %q\n", n, ip)
+			calls = append(calls, fmt.Sprintf("q%d.Scenarios", n))
+		}
+		if n == 0 {
+			return
+		}
+		mainSrc.WriteString(")\n\nfunc main() {\n\ttr.Main(\n")
+		for _, c := range calls {
+			mainSrc.WriteString("\t\t" + c + ",\n")
+		}
+		mainSrc.WriteString("\t)\n}\n")
+		drvDir := filepath.Join(b.Root, "cmd", "drv")
+		os.MkdirAll(drvDir, 0o755)
+		os.WriteFile(filepath.Join(drvDir, "main.go"), []byte(mainSrc.String()), 0o644)
+		res = b.E.Run(b.Root, b.E.GoEnv(), 600*time.Second, "go", "build", "-o", bin, "./cmd/drv")
+		if res.Exit != 0 {
+			// go build stops at the first package whose imports do not resolve: every failing
+			// package is found by excluding the ones known so far and linking again
+			more := failingPkgs(res.Stdout + res.Stderr)
+			grew := false
+			for k, v := range more {
+				if _, ok := b.BuildBad[k]; !ok {
+					if b.BuildBad == nil {
+						b.BuildBad = map[string]string{}
+					}
+					b.BuildBad[k] = v
+					grew = true
+				}
+			}
+			if grew && attempt < 200 {
+				continue
+			}
+			b.TraceErr = "driver link failed: " + res.Stderr
+			return
+		}
+		break
 	}
 	tracePath := filepath.Join(b.Root, "trace.jsonl")
 	res = b.E.Run(b.Root, append(b.E.GoEnv(), "VERIF_TRACE="+tracePath), 300*time.Second, bin)
